@@ -311,6 +311,15 @@ func worldC15(w *World) {
 	conns := make([]*bridgeConn, n)
 	for i := range conns {
 		conns[i] = &bridgeConn{I: i, C: genSide(t, thorough), S: genSide(t, thorough)}
+		if t.Rare(1, 3, "orderly-end") {
+			// both peers end their direction when they have written everything, read to
+			// the end of the opposite direction and only then close: nothing may be lost
+			for _, sd := range []*bridgeSide{&conns[i].C, &conns[i].S} {
+				sd.CloseAfterWrites = true
+				sd.Graceful = true
+			}
+			w.Probe("orderly_end_of_both_directions")
+		}
 	}
 	passthrough := t.Rare(1, 3, "passthrough")
 	chooseGreeting(w)
